@@ -121,6 +121,7 @@ def check_single(cls, t, p):
            "1None" if t.count(None) == 1 else "distinct")
     with guard(f"C04/{cls}/invert/{pat}"):
         d = C(t, p)
+        h_before = hash(d)          # a descriptor that was already hashed
         i1 = d.invert()
         i2 = i1.invert()
         same_twice = (tuple(i2.atoms) == tuple(d.atoms)
@@ -130,6 +131,16 @@ def check_single(cls, t, p):
         refl = (d == d)
     if not refl:
         raise Violation(f"C04/{cls}/not-reflexive/{pat}", repr(d))
+    if p is not None:
+        with guard(f"C04/{cls}/invert-hash/{pat}"):
+            fresh = C(tuple(i1.atoms), i1.parity)
+            same = (fresh == i1)
+            hh = hash(i1) == hash(fresh) and hash(d) == h_before \
+                and hash(i2) == h_before
+        if same and not hh:
+            raise Violation(f"C04/{cls}/hash-differs-for-equal/after-invert/"
+                            f"{pat}", f"{d!r}.invert() hashes differently "
+                            f"from an equal freshly built descriptor")
     if not same_twice or not eq_twice:
         raise Violation(f"C04/{cls}/invert-twice/{pat}",
                         f"{d!r} -> {i1!r} -> {i2!r}")
